@@ -124,6 +124,21 @@ CLAIMED["C11"] = dict(
     technique="Lean 4 proof (importer state invariant) + exact correspondence + round-trip oracle",
 )
 
+CLAIMED["C06"] = dict(
+    text="(1) Kernel-checked obligation extracted_hashIterSites: the list of HashMap/HashSet iteration sites of /repo/src, REGENERATED "
+         "from the source on every run, equals the audited list in which every site carries the reason why its order cannot reach "
+         "the circuit (a new or edited site breaks the obligation). (2) Lean theorems C06_cache_order_irrelevant_push/_mux: for the "
+         "one such site inside modelled code (the condition cache of the panic record) the emitted gates and the record depend "
+         "only on the SET of cached conditions, for every builder state. (3) Exploration: every program is compiled repeatedly in "
+         "one process and in fresh processes (different RandomState seeds); all outcomes must be identical. PARTIAL by nature: "
+         "hash seeds are not part of any Lean model; the order-insensitivity of the audited sites outside modelled code rests on "
+         "the written audit, not on a theorem.",
+    design_ref="DESIGN.md §6 C06",
+    note="trusted: the regex-level extractor (tools/gv/extract.py: names fields/field_types excluded as ambiguous), the audit "
+         "comments in lean/GarbleVerif/ExtractedSites.lean; Lean kernel for the obligations",
+    technique="regenerated source facts as Lean proof obligations + permutation-invariance theorems + repeated/cross-process compilation",
+)
+
 NOT_YET = "not claimed yet: model/proof for this property is still being built in this session (see DESIGN.md §10 order of work)"
 
 
